@@ -82,13 +82,13 @@ def run(ctx):
 #  * "mixed":  one sequence whose pictures use DIFFERENT transform depths (per-picture transform parameters are
 #              legal): pictures of a second encoding (other dwt_depth / dwt_depth_ho) spliced in at byte level;
 #  * "wide":   custom signal ranges whose excursion + 1 is 2^29 (29-bit samples), with extreme coefficients.
-def _encode(features, pictures):
+def _encode(features, pictures, *patterns):
     from io import BytesIO
     from vc2_conformance.encoder.sequence import make_sequence
     from vc2_conformance.bitstream import Stream, autofill_and_serialise_stream
 
     f = BytesIO()
-    autofill_and_serialise_stream(f, Stream(sequences=[make_sequence(features, pictures)]))
+    autofill_and_serialise_stream(f, Stream(sequences=[make_sequence(features, pictures, *patterns)]))
     return f.getvalue()
 
 
@@ -123,6 +123,12 @@ def execute_supp(job):
             ua, ub, uc = units(parts[0]), units(parts[1]), units(parts[2])
             data = corpus.fix_offsets(b"".join(ua[:-1] + ub[1:-1] + uc[1:]))
             rec["npics"] = 3 * n
+        elif kind == "padded":
+            # padding / auxiliary data / repeated sequence headers after EVERY data unit (also between and after
+            # the fragments of a picture): the number of outputs must still be the number of coded pictures
+            pat = ["(. padding_data)+ end_of_sequence", "(. auxiliary_data)+ end_of_sequence", "(sequence_header .)+"][seed % 3]
+            pics = cc.make_pictures(dict(cfg, pn="auto"), outcome, seed)
+            data = _encode(cc.make_features(cfg, outcome), pics, pat)
         else:
             feats = cc.make_features(cfg, outcome)
             vp = feats["video_parameters"]
@@ -151,6 +157,8 @@ def supplement(ctx, cfgs):
         jobs.append({"kind": "mixed", "c": c, "seed": ctx.seed * 7 + i, "tid": len(jobs) + 1})
     for i, c in enumerate([c for c in lossless if c["cfg"]["d"] + c["cfg"]["dho"] >= 1][: ctx.pick(60, 400)]):
         jobs.append({"kind": "wide", "c": c, "seed": ctx.seed * 11 + i, "tid": len(jobs) + 1})
+    for i, c in enumerate(sorted(lossless, key=lambda c: -c["cfg"]["fsc"])[: ctx.pick(90, 600)]):
+        jobs.append({"kind": "padded", "c": c, "seed": ctx.seed * 13 + i, "tid": len(jobs) + 1})
     results = common.pmap(execute_supp, jobs)
     records = [r["records"][0] for r in results]
     bad, applied, res = cc.judge(records)
@@ -164,7 +172,7 @@ def supplement(ctx, cfgs):
             j = jobs[b["line"] - 1]
             r = records[b["line"] - 1]
             ctx.violation("C09|%s|%s|" % (b["clause"].split(".", 1)[1], j["kind"]), "%s on a %s stream of cfg %s (%d pictures output)" % (b["clause"], j["kind"], r["cfg"], len(r["pics"])), {"supp": {"kind": j["kind"], "c": j["c"], "seed": j["seed"], "tid": 1}})
-    if stats.get("mixed:accepted", 0) < 10 or stats.get("wide:accepted", 0) < 5:
+    if stats.get("mixed:accepted", 0) < 10 or stats.get("wide:accepted", 0) < 5 or stats.get("padded:accepted", 0) < 10:
         raise RuntimeError("vacuous supplement: %s" % stats)
     return stats
 
